@@ -331,23 +331,25 @@ Definition drop_cookies (o : list rout) : list rout :=
 Definition has_cookies (o : list rout) : bool :=
   existsb (λ x, match x with ROCookies _ => true | _ => false end) o.
 
-Definition routs_eqb (p : proj) (model obs : list rout) : bool :=
-  if has_cookies obs then perm_by (rout_eqb p) model obs else perm_by (rout_eqb p) (drop_cookies model) obs.
+(** [ck]: the session table (cookie list of probes) belongs to the projection (C20) or not (C15) *)
+Definition routs_eqb (p : proj) (ck : bool) (model obs : list rout) : bool :=
+  if ck && has_cookies obs then perm_by (rout_eqb p) model obs
+  else perm_by (rout_eqb p) (drop_cookies model) (drop_cookies obs).
 
-Fixpoint rreplay (p : proj) (cfg : config) (tmo : Z) (cands : list rstate) (h : list (revent * list rout)) (i : nat)
+Fixpoint rreplay (p : proj) (ck : bool) (cfg : config) (tmo : Z) (cands : list rstate) (h : list (revent * list rout)) (i : nat)
   : option (nat * list (list rout)) :=
   match h with
   | [] => None
   | (ev, obs) :: h' =>
       let nexts := flat_map (λ st, rstep cfg tmo st ev) cands in
-      match List.filter (λ '(_, o), routs_eqb p o obs) nexts with
+      match List.filter (λ '(_, o), routs_eqb p ck o obs) nexts with
       | [] => Some (i, map snd nexts)
-      | ok => rreplay p cfg tmo (map fst ok) h' (S i)
+      | ok => rreplay p ck cfg tmo (map fst ok) h' (S i)
       end
   end.
 
-Definition rreplay_history (p : proj) (cfg : config) (tmo : Z) (h : list (revent * list rout)) :=
-  rreplay p cfg tmo [rinit cfg] h 0.
+Definition rreplay_history (p : proj) (ck : bool) (cfg : config) (tmo : Z) (h : list (revent * list rout)) :=
+  rreplay p ck cfg tmo [rinit cfg] h 0.
 
 (** does this history contain an advance at which the model does not enumerate the tie orders? (evaluated along
     the model's own first run; the harness skips the model comparison of such histories) *)
